@@ -268,6 +268,91 @@ fn probe(p: &str) -> String {
     }
 }
 
+
+// ------------------------------------------------ the macros, each stream of its own kind
+
+/// child mode `hcore --c09m-child <macro> <global> <payload hex>`: one `anstream::print!` / `println!` /
+/// `eprint!` / `eprintln!` / `panic!` of `<<payload>>` on the REAL stdout / stderr after `write_global`
+pub fn macro_child(args: &[String]) -> i32 {
+    choice_of(&args[1]).write_global();
+    let payload = String::from_utf8(crate::unhex(&args[2])).expect("utf8 payload");
+    let text = format!("<<{payload}>>");
+    match args[0].as_str() {
+        "print" => anstream::print!("{}", text),
+        "println" => anstream::println!("{}", text),
+        "eprint" => anstream::eprint!("{}", text),
+        "eprintln" => anstream::eprintln!("{}", text),
+        "panic" => anstream::panic!("{}", text),
+        _ => return 2,
+    }
+    0
+}
+
+/// `c09m <macro> <stdout tty 0|1> <stderr tty 0|1> <payload hex> <global> [<name>=<value>]...`: the child above
+/// with exactly the given environment, stdout and stderr EACH on a pseudo-terminal of its own or on a pipe;
+/// the answer is what arrived between the `<<` `>>` markers on the stream the macro writes to
+/// (stdout for print / println, stderr for eprint / eprintln / panic, whose message the panic hook prints there)
+fn macro_case(f: &[&str]) -> String {
+    use std::io::Read;
+    let (mac, out_tty, err_tty) = (f[0], bit(f[1]), bit(f[2]));
+    let mut cmd = std::process::Command::new(std::env::current_exe().expect("current_exe"));
+    cmd.arg("--c09m-child").arg(mac).arg(f[4]).arg(f[3]).env_clear().stdin(std::process::Stdio::null());
+    for (k, v) in bindings(&f[5..]) {
+        cmd.env(k, v);
+    }
+    let mut masters: [Option<std::fs::File>; 2] = [None, None];
+    for (i, tty) in [out_tty, err_tty].into_iter().enumerate() {
+        let io: std::process::Stdio = if tty {
+            let (m, s) = pty::open();
+            masters[i] = Some(m);
+            s.into()
+        } else {
+            std::process::Stdio::piped()
+        };
+        if i == 0 {
+            cmd.stdout(io);
+        } else {
+            cmd.stderr(io);
+        }
+    }
+    let mut child = cmd.spawn().expect("spawn child");
+    drop(cmd); // closes this process's copies of the pty slaves
+    let mut got: [Vec<u8>; 2] = [Vec::new(), Vec::new()];
+    // payloads are far below the pipe / pty buffer sizes: the child never blocks on a full buffer
+    let status = child.wait().expect("wait");
+    if let Some(mut o) = child.stdout.take() {
+        let _ = o.read_to_end(&mut got[0]);
+    }
+    if let Some(mut e) = child.stderr.take() {
+        let _ = e.read_to_end(&mut got[1]);
+    }
+    for i in 0..2 {
+        if let Some(m) = masters[i].as_mut() {
+            let mut buf = [0u8; 4096];
+            loop {
+                match m.read(&mut buf) {
+                    Ok(0) | Err(_) => break, // EIO once every slave is closed and the buffer is drained
+                    Ok(n) => got[i].extend_from_slice(&buf[..n]),
+                }
+            }
+        }
+    }
+    let want_code = if mac == "panic" { Some(101) } else { Some(0) };
+    if status.code() != want_code {
+        return format!("CHILD-FAILED {:?}", status.code());
+    }
+    let target = if mac == "print" || mac == "println" { 0 } else { 1 };
+    if mac != "panic" && !got[1 - target].is_empty() {
+        return format!("OTHER-STREAM {}", crate::hex(&got[1 - target]));
+    }
+    let data = &got[target];
+    let find = |pat: &[u8], from: usize| data[from..].windows(pat.len()).position(|w| w == pat).map(|p| p + from);
+    match find(b"<<", 0).and_then(|a| data.windows(2).rposition(|w| w == b">>").filter(|b| *b >= a + 2).map(|b| (a, b))) {
+        Some((a, b)) => crate::hexo(&data[a + 2..b]),
+        None => format!("NO-MARKERS {}", crate::hex(data)),
+    }
+}
+
 pub fn dispatch(kind: &str, f: &[&str]) -> Option<String> {
     Some(match kind {
         "c09" => {
@@ -287,6 +372,7 @@ pub fn dispatch(kind: &str, f: &[&str]) -> Option<String> {
             apply_env(&bindings(&f[1..]));
             probe(f[0])
         }
+        "c09m" => macro_case(f),
         "c09g" => {
             assert!(ColorChoice::default() == ColorChoice::Auto, "ColorChoice::default()");
             choice_of(f[0]).write_global();
